@@ -1061,7 +1061,7 @@ namespace
 
 namespace BitSerializer::MsgPack::Detail
 {
-	CMsgPackStreamReader::CMsgPackStreamReader(std::istream& inputStream, const SerializationOptions& serializationOptions) noexcept
+	CMsgPackStreamReader::CMsgPackStreamReader(std::istream& inputStream, const SerializationOptions& serializationOptions)
 		: mBinaryStreamReader(inputStream)
 		, mSerializationOptions(serializationOptions)
 	{ }
